@@ -115,6 +115,10 @@ def mixed_kernel_cases(tier, seed):
     out = []
     for l in block_instance_cases(tier, seed + 2, prefix="mx", dyadic=True, N=(60 if tier == "quick" else 400)):
         out.append(l)
+        cid, op, rest = l.split(" ", 2)
+        # scalar float matrix x vectors of double blocks: same numbers, the model line is the hybrid one (= scalar product)
+        if op == "hspmv": out.append("%sb sbspmv %s" % (cid, rest))
+        if op == "hresid": out.append("%sb sbresid %s" % (cid, rest))
     r = random.Random(seed * 1000 + 133)
     for it in range(30 if tier == "quick" else 200):
         b = r.choice([2, 3, 4]); n = r.choice([1, 2, 3, 5])
@@ -178,7 +182,9 @@ def run_mixed_kernels(ctx, lines=None):
     tier, seed = ctx["tier"], ctx["seed"]
     ctx2 = vtmodel.model_ctx(ctx)
     if lines is None: lines = mixed_kernel_cases(tier, seed) + cview_cases()
-    f, _, _ = diff_run(ctx2, "mixed", lines, shards=8, timeout=300,
+    SB = {"sbspmv": "hspmv", "sbresid": "hresid"}
+    mlines = [(lambda sp: " ".join([sp[0], SB.get(sp[1], sp[1])] + sp[2:]))(l.split(" ", 2)) for l in lines]
+    f, _, _ = diff_run(ctx2, "mixed", lines, shards=8, timeout=300, model_lines=mlines,
                        theorem="correspondence drv_mixed (float blocks x double vectors, re-interpreted) vs Kernels.spmv / residual / vmul at BlockS on BlockSpmv.block_matrix / as_rhs (C13_hybrid_spmv_is_scalar, C13_block_spmv, C13_mixed_precision_view: the vector view does not depend on the matrix precision)")
     for x in f: x["group"] = "mixed-kernel"
     return f
